@@ -105,12 +105,21 @@ func (c *Checker) storeInCache(hashesToRequest, respHashes []hostnameHash) {
 		c.setCache(pref, hash)
 	}
 
+	// Store an empty item for every requested prefix the response has no
+	// hashes for.  A missing item alone doesn't tell that: the cache may
+	// still hold an expired item for the prefix, or may have already evicted
+	// the item that has just been stored above.
+	now := time.Now()
 	for _, hash := range hashesToRequest {
-		val := c.cache.Get(hash[:prefixLen])
-		if val == nil {
-			var pref prefix
-			copy(pref[:], hash[:])
+		var pref prefix
+		copy(pref[:], hash[:])
 
+		val := c.cache.Get(pref[:])
+		if val != nil && !now.After(toCacheItem(val).expiry) {
+			continue
+		}
+
+		if _, ok := hashToStore[pref]; !ok {
 			c.setCache(pref, nil)
 		}
 	}
